@@ -4,6 +4,12 @@
 //	e<N>   the same for stderr
 //	O<hex> E<hex>  write these literal bytes (hex) to stdout / stderr; they take their place in the stream
 //	       (the pattern continues behind them at the next stream offset)
+//	r<s><via><mode><N>  re-open stream s (o|e) by path - via d: /dev/stdout|/dev/stderr, p: /proc/self/fd/1|2 -
+//	       with mode w (O_WRONLY), t (+O_TRUNC), a (+O_APPEND), c (+O_CREAT|O_TRUNC, the shell's ">"),
+//	       A (+O_CREAT|O_APPEND, ">>"), write the next N pattern bytes through it and close it
+//	l<s>   try lseek(fd, 0, SEEK_SET) on descriptor 1|2 (fails with ESPIPE on a pipe), carry on
+//	g<s><N> a grandchild inheriting the descriptors writes the next N pattern bytes; the child waits for it
+//	@<s><off> set the pattern offset of stream s (used by the grandchild)
 //	co ce  close stdout / stderr (later writes to it fail and are lost)
 //	s<ms>  sleep
 //	b<ms>  leave a background descendant behind: it inherits stdout and stderr, writes nothing,
@@ -28,10 +34,25 @@ import (
 	"verif/harness/c14/pat"
 )
 
+func sidx(c byte) int {
+	if c == 'e' {
+		return 1
+	}
+	return 0
+}
+
+func vidx(c byte) int {
+	if c == 'p' {
+		return 1
+	}
+	return 0
+}
+
 func main() {
 	time.AfterFunc(60*time.Second, func() { os.Exit(98) })
 	files := [2]*os.File{os.Stdout, os.Stderr}
 	var off [2]int64
+	var closed [2]bool
 	for _, tok := range os.Args[1:] {
 		if tok == "" {
 			continue
@@ -62,11 +83,63 @@ func main() {
 			}
 			w, _ := files[s].Write(lit)
 			off[s] += int64(w)
+		case 'r':
+			if len(tok) < 5 {
+				os.Exit(96)
+			}
+			s := sidx(tok[1])
+			path := [2][2]string{{"/dev/stdout", "/dev/stderr"}, {"/proc/self/fd/1", "/proc/self/fd/2"}}[vidx(tok[2])][s]
+			flags := map[byte]int{'w': os.O_WRONLY, 't': os.O_WRONLY | os.O_TRUNC, 'a': os.O_WRONLY | os.O_APPEND,
+				'c': os.O_WRONLY | os.O_CREATE | os.O_TRUNC, 'A': os.O_WRONLY | os.O_CREATE | os.O_APPEND}[tok[3]]
+			n, err := strconv.ParseInt(tok[4:], 10, 64)
+			if err != nil || n < 0 {
+				os.Exit(96)
+			}
+			if fd, err := syscall.Open(path, flags, 0o644); err == nil {
+				buf := make([]byte, n)
+				pat.Fill(buf, s, off[s])
+				for done := 0; done < len(buf); {
+					w, err := syscall.Write(fd, buf[done:])
+					if err != nil {
+						if err == syscall.EINTR || err == syscall.EAGAIN {
+							continue
+						}
+						break
+					}
+					done += w
+					off[s] += int64(w)
+				}
+				syscall.Close(fd)
+			}
+		case 'l':
+			syscall.Seek(1+sidx(tok[1]), 0, 0) // must fail on a pipe; a later write shows whether it did
+		case 'g':
+			s := sidx(tok[1])
+			self, err := os.Executable()
+			if err != nil {
+				self = os.Args[0]
+			}
+			n, _ := strconv.ParseInt(tok[2:], 10, 64)
+			gc := exec.Command(self, "@"+tok[1:2]+strconv.FormatInt(off[s], 10), tok[1:2]+tok[2:])
+			if !closed[0] { // a stream the child has closed itself is not handed down (it gets /dev/null)
+				gc.Stdout = os.Stdout
+			}
+			if !closed[1] {
+				gc.Stderr = os.Stderr
+			}
+			if !closed[s] && gc.Run() == nil {
+				off[s] += n
+			}
+		case '@':
+			o, _ := strconv.ParseInt(tok[2:], 10, 64)
+			off[sidx(tok[1])] = o
 		case 'c':
 			if arg == "o" {
 				files[0].Close()
+				closed[0] = true
 			} else {
 				files[1].Close()
+				closed[1] = true
 			}
 		case 'b':
 			self, err := os.Executable()
